@@ -397,7 +397,7 @@ class ClientCalls(Suite):
                     rscript.append([d1, err])
                 rscript.sort(key=lambda x: x[0])
                 calls.append({"op": op, "gap": rng.choice([0, 0, 1, 700]), "initScript": iscript, "reqScript": rscript})
-            out.append({"tie": rng.choice(["events", "timers", "io"]), "calls": calls, "debug": rng.random() < 0.25})
+            out.append({"tie": rng.choice(["events", "timers", "io"]), "calls": calls, "debug": rng.random() < 0.25, "warnErr": rng.random() < 0.1})
         return out
 
     def impl_batch(self, cases):
@@ -526,6 +526,8 @@ class ClientCalls(Suite):
                     yield c
         if case.get("debug"):
             yield dict(case, debug=False)
+        if case.get("warnErr"):
+            yield dict(case, warnErr=False)
 
 
 class Connection(Suite):
@@ -629,6 +631,8 @@ class Connection(Suite):
             yield dict(case, stream=case["stream"][:j] + case["stream"][j + 1:])
         if case.get("debug"):
             yield dict(case, debug=False)
+        if case.get("warnErr"):
+            yield dict(case, warnErr=False)
 
 
 def suites():
